@@ -29,7 +29,10 @@ func TestCheck(t *testing.T) {
 		"half-closes right behind them; (4) uniquely named queries sent by 32 parallel clients per path to a second " +
 		"set of servers whose responses are built from, and disposed of into, the pools of a production dnsmsg.Cloner; " +
 		"(5) servers with pipeline limit 1 and 2 and a request-context timeout: connection A holds that many queries " +
-		"inside the handler (a gate the harness controls) while fresh connections B and C send ordinary queries. " +
+		"inside the handler (a gate the harness controls) while fresh connections B and C send ordinary queries; " +
+		"(6) 160 sequential queries per DoQ connection whose FIN follows the query in a later packet; " +
+		"(7) datagrams of 513..4000 bytes (padded valid queries, valid queries followed by filler, garbage) over plain UDP, " +
+		"judged by their first 512 bytes. " +
 		"Every input is sent over every client path and the observation is compared with the treatment computed from " +
 		"the bytes alone (reference = the handler invoked directly through NonWriterResponseWriter). " +
 		"A case is non-trivial when it was actually sent and an observation was judged; its class is " +
@@ -37,7 +40,7 @@ func TestCheck(t *testing.T) {
 		"EDNS feature set, opcode, extra-record placement, handler behaviour) for queries and (hostile family, class " +
 		"computed from the bytes) for hostile inputs.")
 	r.Assume("the DNS library's Unpack defines which byte strings are decodable; the harness calls it on exactly the bytes it sends")
-	r.Assume("UDP requests larger than 512 bytes are not sent over plain UDP (default read buffer), per the design")
+	r.Assume("the plain-DNS server keeps the production read buffer (UDPSize 512) and OOB listen config; a UDP datagram longer than that is judged by its first 512 bytes, which is all the server is documented to read")
 	r.Assume("silence on datagram transports is observed for a bounded time; a response arriving later on the same socket is still attributed by its ID")
 	r.Assume("a connection closed by the server more than 1 s after the harness last wrote on it, and a UDP query answered only after retransmission, are counted as ambiguous, not as violations")
 	r.Assume("the servers carry the production metrics listener (prometheus.NewServerMetricsListener, as dnssvc.New installs it) next to the harness' counting listener")
@@ -185,6 +188,9 @@ func TestCheck(t *testing.T) {
 		return
 	}
 
+	// Phase 7: long-lived DoQ connections, FIN in a later packet.
+	e.doqLongLived()
+
 	// Observations of the servers themselves.
 	snap := metrics.Snapshot()
 	r.Extra("server_metrics", snap)
@@ -227,6 +233,9 @@ func TestCheck(t *testing.T) {
 	r.Require("class:accept/handler-silent", int64(r.N(20, 200)))
 	r.Require("class:accept/handler-error", int64(r.N(40, 400)))
 	r.Require("class:accept/handler-write-error", int64(r.N(60, 600)))
+	// Datagrams longer than the UDP read buffer, each batch followed by a
+	// liveness probe on the same listener.
+	r.Require("udp_oversize_datagrams:udp", int64(r.N(24, 100)))
 	for _, p := range hostilePaths {
 		// Messages without any question, on every transport.
 		r.Require("zero_question_inputs:"+p.name, 15)
